@@ -448,7 +448,9 @@ def pred_fresh(prog: Program) -> RuleResult:
 
             for x in comps:
                 for cond in x.generators[0].ifs:
-                    if _excludes_computed(cond):
+                    # (one conjunct of the filter is enough: further conjuncts only leave out more)
+                    conjuncts = cond.values if isinstance(cond, ast.BoolOp) and isinstance(cond.op, ast.And) else [cond]
+                    if any(_excludes_computed(cj) for cj in conjuncts):
                         ok = True
             for lp in loops:
                 for t in [y for y in ast.walk(lp) if isinstance(y, ast.If)]:
